@@ -867,7 +867,8 @@ private:
             const std::valarray<double>& d) const;
     void computeDescentVectorOnBothAxes(const bool xaxis, const bool yaxis,
             double stress, std::valarray<double>& x0, std::valarray<double>& x1);
-    void moveTo(const vpsc::Dim dim, std::valarray<double>& target);
+    void moveTo(const vpsc::Dim dim, std::valarray<double>& target,
+            const bool recordUnsatisfiable=false);
     double applyDescentVector(
             const std::valarray<double>& d,
             const std::valarray<double>& oldCoords,
@@ -880,7 +881,8 @@ private:
     void generateNonOverlapAndClusterCompoundConstraints(
             vpsc::Variables (&vs)[2]);
     void handleResizes(const Resizes&);
-    void setPosition(std::valarray<double>& pos);
+    void setPosition(std::valarray<double>& pos,
+            const bool recordUnsatisfiable=false);
     void moveBoundingBoxes();
     bool noForces(double, double, unsigned) const;
     void computeForces(const vpsc::Dim dim, SparseMap &H, 
